@@ -441,8 +441,34 @@ fn damage(h: &H, idx: u64, rng: &mut Rng) {
             // structured: sub grid names and parents
             let subs = random_tree(rng);
             let mut subs2 = subs.clone();
-            let variant = rng.below(5);
+            let variant = rng.below(8);
             match variant {
+                5 => {
+                    // the name reserved for "no parent" used as a sub grid name
+                    let k = rng.below(subs2.len());
+                    let old = subs2[k].name.clone();
+                    subs2[k].name = "NONE".into();
+                    if rng.chance(0.5) {
+                        for s in subs2.iter_mut() {
+                            if s.parent == old {
+                                s.parent = "NONE".into();
+                            }
+                        }
+                    }
+                }
+                6 => {
+                    // a child whose parent is one of its own descendants, next to a healthy root
+                    if subs2.len() > 2 {
+                        let n2 = subs2[2].name.clone();
+                        let n1 = subs2[1].name.clone();
+                        subs2[1].parent = n2;
+                        subs2[2].parent = n1;
+                    }
+                }
+                7 => {
+                    let k = rng.below(subs2.len());
+                    subs2[k].name = rng.pick(&["", " ", "NONE    X", "none", "\u{0}\u{0}"]).to_string();
+                }
                 0 => {
                     for s in subs2.iter_mut() {
                         s.name = "SAME".into();
